@@ -212,6 +212,7 @@ def run(ctx, impl_only=False):
     n = 1200 if ctx.thorough() else 160
     pairs = FAM.gen_pairs(ctx, n, bytes_=False)
     pairs += FAM.rich_pairs(ctx, n // 5)
+    pairs += FAM.hostile_pairs(ctx, n // 6)
     # flat sequences of scalars of every documented kind with two or three changes (both passes of the ordered comparison run),
     # and the same member entering / leaving two different sets
     leaves = FAM.rich_leaves()
